@@ -78,7 +78,9 @@ func isHandledSelectStmt(l *lexer, keyspace Identifier) (handled bool, stmt Stat
 func isHandledUseStmt(l *lexer) (handled bool, stmt Statement, err error) {
 	t := l.next()
 	if tkIdentifier != t {
-		return false, nil, errors.New("expected identifier after 'USE' in use statement")
+		// Still handled: forwarded as a regular query it would switch the keyspace of a backend connection that is
+		// shared with other clients (e.g. `USE p1d`, which the lexer reads as a duration; it can be quoted)
+		return true, nil, errors.New("expected identifier after 'USE' in use statement")
 	}
 	return true, &UseStatement{Keyspace: l.identifierStr()}, nil
 }
